@@ -1,5 +1,6 @@
 import SmtpV.Props.DataMonitor
 import SmtpV.Proofs.SizeLimit
+import SmtpV.Proofs.BdatGrow
 /-!
 # C06 — MaxMessageBytes bounds what a backend is handed and what is accepted (DATA reader part)
 
@@ -74,5 +75,17 @@ theorem C06_declared_size_refused (cfg : Cfg) (rest : List (Bytes × Bytes)) (o 
     (h : n < 2 ^ 32) (hm : cfg.maxMsg > 0 ∧ n > cfg.maxMsg) :
     Server.mailParams cfg (("SIZE".b, natToDec n) :: rest) o bm = .refuse 552 ⟨5, 3, 4⟩ "Max message size exceeded" :=
   mailParams_size_over cfg rest o bm n h hm
+
+/-- **C06_accepted_chunk_bounded.**  Executing an accepted `BDAT size [LAST]` — in any state, with any backend behaviour, however
+    the chunk arrives or fails to arrive — hands no delivery more than `size` further octets; in particular, if every delivery
+    so far stays within `N` after `size` more octets (which is what the server's check `bytesReceived + size ≤ N` establishes for
+    the running transfer), it still does afterwards. -/
+theorem C06_accepted_chunk_bounded (s : S) (size : Nat) (last : Bool) :
+    GrowBy s (bdatChunk s size last).1 size ∧
+    ∀ N, (∀ j, octLen s j + size ≤ N) → ∀ j, octLen (bdatChunk s size last).1 j ≤ N := by
+  refine ⟨grow_bdatChunk s size last, fun N h j => ?_⟩
+  have := grow_bdatChunk s size last j
+  have := h j
+  omega
 
 end SmtpV.Props.C06
